@@ -8,6 +8,8 @@ CONSTANTS
   AcceptTopBit = FALSE
   LimitPerFrame = TRUE
   PongEmpty = FALSE
-INVARIANTS TypeOk LimitOk ProtocolClose PongOk NoTopBitFrame Whole
+  BufSizes = {0}
+  CtlNeedsBuffer = FALSE
+INVARIANTS TypeOk LimitOk ProtocolClose PongOk NoTopBitFrame Whole NoSpontaneousFailure
 PROPERTIES Sticky CutDeliversNothing
 CHECK_DEADLOCK FALSE
